@@ -166,6 +166,16 @@ def conversion_rule(ctx, kinds):
         for c in constr:
             n_constr += 1
             check_construction(ctx, m, w, u, cfg, c, h, idx_env, what=what)
+            # the construction is what the handler produces, not one arm of a choice whose other
+            # arm hands the caught exception on (``e if isinstance(e, PathAccessError) else ..``:
+            # an inner call's error keeps the inner path and part index)
+            par = parent(c)
+            if isinstance(par, ast.IfExp):
+                other = par.orelse if par.body is c else par.body
+                ok2 = isinstance(other, ast.Call) and other in constr
+                ctx.ob(ok2, u, 'every caught miss is converted (no pass-through arm): %s' % norm(par)[:70],
+                       '' if ok2 else 'under `%s` the caught exception itself is used: its path / part index are those of an inner call'
+                       % norm(par.test)[:50], node=c)
     return n_constr
 
 
@@ -368,6 +378,22 @@ def _loop_shape(unit, var_names):
     return out
 
 
+def _starts_at(ctx, u, iv, init, offset, stride):
+    """the constant an index is (re)initialised with: the first step's position, or -- where the
+    index provably holds that position already -- a whole number of steps further (``i = 3`` after
+    ``i = 1`` is ``i += 2``: one step was consumed by a shortcut)"""
+    v = init.value
+    if not (isinstance(v, ast.Constant) and isinstance(v.value, int)):
+        return False
+    if v.value == offset:
+        return True
+    if v.value > offset and (v.value - offset) % stride == 0:
+        cfg = ctx.cfg(u)
+        defs = [d for _, d in cfg.reaching_defs(cfg.node_of(init), iv)]
+        return bool(defs) and all(isinstance(d, ast.Constant) and d.value == offset for d in defs)
+    return False
+
+
 @rule('C01.5')
 def layout_agreement(ctx):
     m, w = model(ctx)
@@ -385,7 +411,7 @@ def layout_agreement(ctx):
         for lp, iv, inits, steps, reads in shapes:
             ctx.require(inits and steps, '%s: induction variable %s has no constant init/step' % (q, iv))
             for i in inits:
-                ctx.ob(i.value.value == want_init, u, 'reader loop starts at %d: %s' % (want_init, norm(i)), node=i)
+                ctx.ob(_starts_at(ctx, u, iv, i, want_init, S), u, 'reader loop starts at %d: %s' % (want_init, norm(i)), node=i)
             for s in steps:
                 ctx.ob(s.value.value == S, u, 'reader loop steps by the writer stride %d: %s' % (S, norm(s)), node=s)
             offs = set()
@@ -544,7 +570,7 @@ def loop_coverage(ctx):
     # the induction variable: init = offset, every step = stride
     inits, steps = m.induction()
     for i in inits:
-        ctx.ob(isinstance(i.value, ast.Constant) and i.value.value == w.offset, u,
+        ctx.ob(isinstance(i.value, ast.Constant) and _starts_at(ctx, u, m.ivar, i, w.offset, w.stride), u,
                'index starts at the first step (%d): %s' % (w.offset, norm(i)), node=i)
     for s in steps:
         ctx.ob(isinstance(s.op, ast.Add) and isinstance(s.value, ast.Constant) and s.value.value == w.stride, u,
